@@ -111,7 +111,23 @@ func (e *EventEmitter) handleSubscriber(ctx context.Context, sub event.Subscript
 	wg.Add(1)
 	go func() {
 		defer wg.Done()
-		defer sub.Close()
+		defer func() {
+			// the bus does not drain a wildcard subscription when it is closed: an
+			// emitter blocked on this subscription's full channel holds the bus lock
+			// that Close needs, so keep reading until the subscription is unlinked
+			unlinked := make(chan struct{})
+			go func() {
+				for {
+					select {
+					case <-sub.Out():
+					case <-unlinked:
+						return
+					}
+				}
+			}()
+			_ = sub.Close()
+			close(unlinked)
+		}()
 
 		for {
 			var e interface{}
